@@ -676,9 +676,15 @@ class Substance:
         if numerator == 'U' and denominator == 'g':
             substance.specific_activity = value
         elif numerator == 'g' and denominator == 'U':
-            substance.specific_activity = 1 / value
+            # mass per activity: the reciprocal of the two stated numbers ('1 mg/7 U' is 7 U/mg), not of the parsed
+            # ratio, which has been rounded to ten digits
+            mass, _, activity = specific_activity.partition('/')
+            activity = activity if ' ' in activity else '1 ' + activity
+            substance.specific_activity = Unit.parse_quantity(activity)[0] / Unit.parse_quantity(mass)[0]
         else:
             raise ValueError("Specific activity must be in U/g or g/U.")
+        if not 0 < substance.specific_activity < float('inf'):
+            raise ValueError("Specific activity must be positive.")
         # the same activity has one value however it was spelt ('100 U/mg', '10 ug/U', '100000 U/g': 99999.99999999999
         # is not another lot) - it is part of what identifies the substance
         substance.specific_activity = float(f"{substance.specific_activity:.12g}")
